@@ -569,7 +569,12 @@ class Gen:
             opts += ["control", "control", "control", "last"]
         if "validity" in self.groups:
             opts += ["when", "validity"]
+        if "errors" in self.groups and not self.no_headers:
+            opts += ["err", "err", "err"]
         c = r.choice(opts)
+        if c == "err":
+            # a numeric function over a column whose cells need not be numbers (C05); the column may also be absent (None: accepted)
+            return L.err(self.href_any())
         if c == "print":
             return self.print_component()
         if c == "control":
@@ -701,7 +706,7 @@ def make_case(rng, tid, *, groups=("core",), AND=None, max_rows=8, modes=False):
     # control functions are about what happens around blank records: more of them
     fs = L.FileSpec(rng, max_rows=max_rows, blank_p=0.22 if "control" in groups else 0.12)
     if AND is None:
-        AND = rng.random() < 0.7
+        AND = True if "errors" in groups else rng.random() < 0.7     # with an error the line does not match: stated for AND
     g = Gen(rng, fs, AND=AND, groups=groups)
     prog = g.program()
     if rng.random() < 0.15:
@@ -712,6 +717,12 @@ def make_case(rng, tid, *, groups=("core",), AND=None, max_rows=8, modes=False):
                 if n["k"] == "fn" and n["name"] in ren and rng.random() < 0.7:
                     n["name"] = ren[n["name"]]
     cfg = {"AND": AND, "noMatches": False, "keepUnmatched": False, "collecting": True, "noRun": False, "nexts": 0}
+    if "errors" in groups:
+        # the error policy of the configuration and the csvpath's own validation-mode overrides
+        flags = ["raise", "collect", "stop", "fail", "print", "quiet"]
+        pol = [f for f in flags if rng.random() < 0.45] or [rng.choice(flags)]
+        cfg["policy"] = pol
+        cfg["vm"] = {f: rng.random() < 0.5 for f in ("raise", "stop", "fail", "print") if rng.random() < 0.2}
     if modes:
         cfg["noMatches"] = rng.random() < 0.5
         cfg["keepUnmatched"] = rng.random() < 0.6
